@@ -158,3 +158,44 @@ func H_C18_pptx_package_text() {
 	}
 	vReach("end")
 }
+
+// H_C18_pptx_renamed_parts: the slide list names parts by relationship target, not by file-name pattern: slides stored
+// under other names or directories are shown, in declared order, and an unreferenced part that happens to look like a
+// slide is not.
+//
+//symgo:harness prop=C18 kernel=K3b-pptx-renamed-parts noreplay=1
+//symgo:redirect archive/zip.OpenReader vStubOpenZip
+//symgo:desc zip layer cut (member content model); two declared slides whose parts are stored as (enumerated) ppt/slides/slide1.xml + ppt/slides/intro.xml, ppt/deck/a.xml + ppt/deck/b.xml, or ppt/slides/slide2.xml + ppt/slides/slide1.xml, declared in either order (enumerated); an unreferenced decoy ppt/slides/slide7.xml is present or not (enumerated): the reader has exactly the two declared slides in declared order, each page holds its own title only, and the decoy's text appears nowhere
+func H_C18_pptx_renamed_parts() {
+	const ns = `xmlns:a="http://schemas.openxmlformats.org/drawingml/2006/main" xmlns:r="http://schemas.openxmlformats.org/officeDocument/2006/relationships" xmlns:p="http://schemas.openxmlformats.org/presentationml/2006/main"`
+	slide := func(k string) string {
+		return `<?xml version="1.0"?><p:sld ` + ns + `><p:cSld><p:spTree><p:nvGrpSpPr><p:cNvPr id="1" name=""/><p:cNvGrpSpPr/><p:nvPr/></p:nvGrpSpPr><p:grpSpPr/>` +
+			`<p:sp><p:nvSpPr><p:cNvPr id="2" name="x"/><p:cNvSpPr/><p:nvPr><p:ph type="title"/></p:nvPr></p:nvSpPr><p:spPr/><p:txBody><a:bodyPr/><a:p><a:r><a:t>Title` + k + `</a:t></a:r></a:p></p:txBody></p:sp></p:spTree></p:cSld></p:sld>`
+	}
+	names := [][2]string{{"slides/slide1.xml", "slides/intro.xml"}, {"deck/a.xml", "deck/b.xml"}, {"slides/slide2.xml", "slides/slide1.xml"}}[vAnyIntIn(0, 2)]
+	order := []int{0, 1}
+	if vAnyIntIn(0, 1) == 1 {
+		order = []int{1, 0}
+	}
+	decoy := vAnyIntIn(0, 1) == 1
+	vZipRC = &zip.ReadCloser{}
+	vZipMember("[Content_Types].xml", `<?xml version="1.0"?><Types xmlns="http://schemas.openxmlformats.org/package/2006/content-types"/>`)
+	if decoy {
+		vZipMember("ppt/slides/slide7.xml", slide("DECOY"))
+	}
+	vZipMember("ppt/"+names[0], slide("A"))
+	vZipMember("ppt/"+names[1], slide("B"))
+	vZipMember("ppt/presentation.xml", `<?xml version="1.0"?><p:presentation `+ns+`><p:sldIdLst><p:sldId id="256" r:id="rId`+string(rune('1'+order[0]))+`"/><p:sldId id="257" r:id="rId`+string(rune('1'+order[1]))+`"/></p:sldIdLst></p:presentation>`)
+	vZipMember("ppt/_rels/presentation.xml.rels", `<?xml version="1.0"?><Relationships xmlns="http://schemas.openxmlformats.org/package/2006/relationships"><Relationship Id="rId1" Type="http://schemas.openxmlformats.org/officeDocument/2006/relationships/slide" Target="`+names[0]+`"/><Relationship Id="rId2" Type="http://schemas.openxmlformats.org/officeDocument/2006/relationships/slide" Target="`+names[1]+`"/></Relationships>`)
+	r, err := Open("any.pptx")
+	vAssert("opens", err == nil && r != nil)
+	vAssert("page-count-is-declared-parts", len(r.slides) == 2)
+	for i, k := range order {
+		own, other := []string{"TitleA", "TitleB"}[k], []string{"TitleA", "TitleB"}[1-k]
+		txt, terr := r.TextWithOptions(ExtractOptions{SlideNumbers: []int{i}, IncludeTitles: true})
+		vAssert("text-no-error", terr == nil)
+		vAssert("declared-order-own-text", strings.Contains(txt, own) && !strings.Contains(txt, other))
+		vAssert("decoy-not-shown", !strings.Contains(txt, "TitleDECOY"))
+	}
+	vReach("end")
+}
